@@ -646,6 +646,28 @@ def gen_special(rng, hid, which):
         sc.advance(rng.choice([0, 500]))
         sc.deliver([r_ptr(TY1, s.inst, rng.choice([2, 5]), cls=0x8001)], 2)
         return sc.finish(8000)
+    if which == "browse-expiring":
+        # browse starts while a cached PTR record of the type is in its last second (finding
+        # C04-browse-over-expiring-ptr), or shortly before that (control: must pass).  The PTR gets
+        # into the cache while its type is not browsed: in the additional section of a response
+        # without PTR answers, or beside the PTR of a browsed subtype.
+        route = rng.choice(["addl", "subtype"])
+        sc = Scenario(rng, hid, True, [] if route == "addl" else [SUB1])
+        s = Svc(rng, rng.choice(INST_LABELS), TY1, rng.choice(HOSTS), 2, sub=SUB1 if route == "subtype" else None)
+        ttl = rng.choice([2, 3, 5])
+        sc.advance(100)
+        if route == "addl":
+            sc.deliver([r_txt(s.inst, sec=1), (3, TY1, 12, 1, ttl, dnsgen.rd_ptr(s.inst))], 2, v4=True)
+        else:
+            sc.deliver([r_ptr(SUB1, s.inst, 4500), r_ptr(TY1, s.inst, ttl)], 2, v4=True)
+        sc.advance(ttl * 1000 - rng.choice([100, 500, 900, 999, 1000, 1300]))
+        sc.pending_calls.append(sc.h.browse(TY1))
+        if rng.random() < 0.8:
+            sc.advance(rng.choice([0, 50, 200]))
+            sc.deliver([r_ptr(TY1, s.inst, 120)], 2, v4=True)
+        sc.advance(rng.choice([0, 200, 700]))
+        sc.deliver([r_srv(s.inst, s.host, 8080, 120), r_a(s.host, "192.168.1.50", 120)], 2, v4=True)
+        return sc.finish(3000)
     raise ValueError(which)
 
 
